@@ -1,5 +1,6 @@
 import Heathcliff.Proofs.NonVac
 import Heathcliff.Proofs.GenRns2
+import Heathcliff.Proofs.GenRns3
 
 /-!
   Non-vacuity of the hypothesis bundles of Proofs/GenRns2.lean (translator tie, phase 4c) in the concrete world of Proofs/NonVac.lean:
@@ -52,3 +53,55 @@ theorem grw_mtdn_eq : GenR.mod_t_and_divide_q_last_ntt_inplace (flatP nv_c0) nv_
     rw [h97]
     have := getD_lt_of_forall (B := 2 * 97) (by intro y hy; have := hb y hy; rw [hq] at this; exact this) (by norm_num) j
     omega
+
+/-- `gr_divide_and_round_q_last_ntt_inplace_eq` applies -/
+theorem grw_darn_eq : GenR.divide_and_round_q_last_ntt_inplace (flatP nv_c0) nv_tool.baseQ.size nv_tool.baseQ.base.toList nv_tool.n nv_tool.invQLastModQ.toList
+      (fun i x => .ok (gr_IT #[nv_t97, nv_t113] i x)) (fun i x => .ok (gr_NL #[nv_t97, nv_t113] i x))
+    = (nv_tool.divideAndRoundQLastNtt #[nv_t97, nv_t113] nv_c0).map flatP :=
+  gr_divide_and_round_q_last_ntt_inplace_eq nv_tool #[nv_t97, nv_t113] nv_c0 (by decide +kernel) (by decide +kernel) (by decide +kernel) (by decide +kernel)
+    (by decide +kernel) grw_shape (by
+      intro i hi
+      have hs : nv_tool.baseQ.size = 2 := by decide +kernel
+      rw [hs] at hi
+      interval_cases i <;> decide +kernel)
+
+/-- `gr_mod_t_and_divide_q_last_inplace_eq` / `_bgv` apply -/
+theorem grw_mtd_eq : GenR.mod_t_and_divide_q_last_inplace (flatP nv_c0) nv_tool.baseQ.size nv_tool.baseQ.base.toList nv_tool.n nv_tool.invQLastModQ.toList
+      nv_tool.t nv_tool.invQLastModT = (nv_tool.modTAndDivideQLast nv_c0).map flatP :=
+  gr_mod_t_and_divide_q_last_inplace_eq nv_tool nv_c0 (by decide +kernel) (by decide +kernel) (by decide +kernel) (by decide +kernel) (by decide +kernel)
+    (by decide +kernel) (by decide +kernel) grw_shape (by
+      intro x hx
+      have : (nv_c0.getD (nv_tool.baseQ.size - 1) #[]).toList.all (fun y => decide (y < 2^64)) = true := by decide +kernel
+      exact of_decide_eq_true (List.all_eq_true.mp this x (by simpa using hx)))
+
+theorem grw_mtd_bgv : ∃ out, GenR.mod_t_and_divide_q_last_inplace (flatP nv_c0) nv_tool.baseQ.size nv_tool.baseQ.base.toList nv_tool.n
+    nv_tool.invQLastModQ.toList nv_tool.t nv_tool.invQLastModT = .ok out := by
+  obtain ⟨out, h, _⟩ := gr_mod_t_and_divide_q_last_inplace_bgv nv_tool nv_c0 (fun j => [10960, 1363, 2134, 7122].getD j 0)
+    (by decide +kernel) (by decide +kernel) (by decide +kernel) (by decide +kernel) (by decide +kernel) (by decide +kernel) (by decide +kernel)
+    (by decide +kernel) (by decide +kernel) grw_shape (by
+      intro i j hi hj
+      have hs : nv_tool.baseQ.size = 2 := by decide +kernel
+      have hn : nv_tool.n = 4 := nv_tool_shape.1
+      rw [hs] at hi; rw [hn] at hj
+      interval_cases i <;> interval_cases j <;> decide +kernel)
+  exact ⟨out, h⟩
+
+/-- `gr_mod_t_and_divide_q_last_ntt_inplace_bgv` applies to the NonVac level (bundles of C05U from their field witnesses) -/
+theorem grw_mtdn_bgv : ∃ out : RnsPoly, c05u_BgvDivOfNtt nv_level nv_c0 (out.extract 0 (nv_level.size - 1)) := by
+  obtain ⟨out, _, h, _⟩ := gr_mod_t_and_divide_q_last_ntt_inplace_bgv nv_level_wf
+    ⟨nv_toolOK_fields.1, nv_toolOK_fields.2.1, nv_toolOK_fields.2.2.1, nv_toolOK_fields.2.2.2⟩
+    ⟨nv_bgvOK_fields.1, nv_bgvOK_fields.2.1, nv_bgvOK_fields.2.2.1, nv_bgvOK_fields.2.2.2⟩ (by decide +kernel) (by decide +kernel) (by decide +kernel) nv_c0_canon
+  exact ⟨out, h⟩
+
+/-- `gr_sm_mrq_eq` applies: a 4-component input (|Bsk| = 3, plus the m̃ component) and a zero destination -/
+theorem grw_sm_eq : GenR.sm_mrq (flatP #[#[1,2,3,4],#[5,6,7,8],#[9,10,11,12],#[13,14,15,16]]) (flatP #[#[0,0,0,0],#[0,0,0,0],#[0,0,0,0]])
+      nv_tool.baseBsk.size nv_tool.baseBsk.base.toList nv_tool.n nv_tool.mTilde nv_tool.negInvProdQModMt nv_tool.prodQModBsk.toList nv_tool.invMtModBsk.toList
+    = (nv_tool.smMrq #[#[1,2,3,4],#[5,6,7,8],#[9,10,11,12],#[13,14,15,16]]).map flatP := by
+  have hs : nv_tool.baseBsk.size = 3 := nv_tool_shape.2.2.2.1
+  have hn : nv_tool.n = 4 := nv_tool_shape.1
+  refine gr_sm_mrq_eq nv_tool _ _ (by rw [hs]; rfl) ?_ (by rw [hs]; rfl) ?_ (by decide +kernel) ?_ (by decide +kernel) (by decide +kernel) (by decide +kernel)
+  · intro i hi; rw [hs] at hi; rw [hn]; interval_cases i <;> rfl
+  · intro i hi; rw [hs] at hi; rw [hn]; interval_cases i <;> rfl
+  · intro x hx
+    have : nv_tool.prodQModBsk.toList.all (fun y => decide (y < 2^64)) = true := by decide +kernel
+    exact of_decide_eq_true (List.all_eq_true.mp this x (by simpa using hx))
